@@ -328,7 +328,9 @@ func checkC06(rc *RunCtx) *Report {
 	rep.Coverage["rollbacks_of_latest_change"] = nums["rollbacks"]
 	rep.Coverage["refusable_requests"] = nums["refusable_requests"]
 	rep.Coverage["rule"] = fmt.Sprintf("every history of 1..%d Set requests over the C03 alphabet (%d requests: leaf/subtree/list-entry deletes, overwrites, re-creation, two targets), devices connected, each run to idle through the real handlers and controllers; then: rollback of the latest change (Get on every target and device content must equal the state before the change), rollback of that rollback (refused), rollback of the predecessor afterwards (state of two changes ago), rollback of a non-latest change, of index 0 and of a missing index (refused, nothing altered); non-trivial = distinct (reference, stored) contents from which a rollback was run", maxLen, len(c03Alphabet))
-	rep.Assumptions = append(rep.Assumptions, "default (oldest-first) schedule; interleavings of rollbacks are explored by C02/C05/C09 scenarios")
+	rep.Assumptions = append(rep.Assumptions, "histories run under the default (oldest-first) schedule; interleavings, a crash and a split step around one change and its rollback are explored by the schedule part (scenarios R1..R4)")
+	// the schedule part: a change and its rollback under every interleaving, one crash, one split step
+	c06Schedules(rc, rep)
 	return rep
 }
 
